@@ -485,3 +485,53 @@ def c20_check(payload):
                     return {"kind": "auxiliary-predicate-depends-on-choices", "instance": facts, "pred": f"{d[0]}/{d[1]}",
                             "result": res_text[:1500]}
     return None
+
+
+# ---------------------------------------------------------------------------------------------
+# C17 (cross-process part): same bytes from fresh interpreters, under several hash seeds
+# ---------------------------------------------------------------------------------------------
+XPROC_SCRIPT = r"""
+import sys, json, logging
+logging.disable(logging.CRITICAL)
+from clingo.ast import parse_string
+from ngo.api import optimize
+from ngo.utils.ast import Predicate
+from ngo.utils.globals import auto_detect_input, auto_detect_output
+case = json.loads(sys.stdin.read())
+prg = []
+parse_string(case["text"], prg.append, logger=lambda c, m: None)
+def decl(d, auto):
+    if d is None or d == "auto":
+        return auto(prg)
+    return [Predicate(x.split("/")[0], int(x.split("/")[1])) for x in d]
+ip = decl(case.get("input"), auto_detect_input)
+op = decl(case.get("output"), auto_detect_output)
+traits = ["cleanup", "unused", "duplication", "symmetry", "minmax_chains", "sum_chains", "math", "inline", "projection"]
+res = optimize(prg, ip, op, **{t: (t in case.get("traits", [])) for t in traits})
+sys.stdout.write("\n".join(str(s) for s in res))
+"""
+
+
+def c17_xproc_check(payload, runs=None):
+    """fresh interpreter per run; PYTHONHASHSEED cycles through 0,1,2,random"""
+    import json
+    runs = runs or payload.get("runs", 4)
+    seeds = ["0", "1", "2", "random", "7", "random", "13", "random", "0", "random"]
+    outs = []
+    for k in range(runs):
+        e = env()
+        e["PYTHONHASHSEED"] = seeds[k % len(seeds)]
+        try:
+            r = subprocess.run([PY, "-c", XPROC_SCRIPT], input=json.dumps(payload), capture_output=True, text=True,
+                               env=e, timeout=120)
+        except subprocess.TimeoutExpired:
+            return None
+        if r.returncode != 0:
+            return None      # crashes are C03's business
+        outs.append(r.stdout)
+    if len(set(outs)) > 1:
+        a = outs[0]
+        b = next(o for o in outs if o != a)
+        return {"kind": "output-differs-between-processes", "runs": runs, "distinct_outputs": len(set(outs)),
+                "one": a[:600], "other": b[:600]}
+    return None
